@@ -17,7 +17,10 @@
     * the converter's bookkeeping: mode map, SWAP permutation (any two qubits), CNOT labelling
       (lengths, names, the post-processed CNOTs form a forest — never two on the same qubit pair —,
       maximality), the repaired labelling also respects the other two-qubit gates, the pinned one does
-      not (witness).
+      not (witness);
+    * the cQASM front-end's assignment of declared qubit variables to qubits (`operand_lands_on_named_qubit`,
+      `operand_index_injective`, `operand_index_in_range`, closed forms `operand_index_array` /
+      `operand_index_single`: total width of the variables declared before, plus the index).
   What is NOT proved (validated per instance by the correspondence, see manifest.d/C20.json):
     * that the concrete catalog matrices (floating-point angles, SVD / sqrtm constructions, optimiser
       fits) implement their gate — no `∀`-angle theorem for the multi-photon gates;
